@@ -102,6 +102,19 @@ func genScan(profile string, ending bool) func(seed uint64, r *rng.Rand) *Plan {
 			}
 			p.Tasks = append(p.Tasks, Task{Ops: ops})
 		}
+		if !ending && g.R.Chance(0.1) {
+			// parallel range scans created from one options slice: only the
+			// range (and the direction) of a scan is its own
+			for t := range p.Tasks {
+				for i := range p.Tasks[t].Ops {
+					o := &p.Tasks[t].Ops[i]
+					*o = Op{Kind: "scan", Table: o.Table, Nonce: sharedNonce, Start: o.Start, Stop: o.Stop, SharedOpts: true, NumRows: 2}
+				}
+			}
+			for len(p.Tasks) < 2 {
+				p.Tasks = append(p.Tasks, Task{Ops: []Op{p.Tasks[0].Ops[0]}})
+			}
+		}
 		if ending && g.R.Chance(0.6) {
 			nf := g.R.Range(1, 2)
 			for i := 0; i < nf; i++ {
